@@ -614,8 +614,8 @@ theorem hostOf_structured_v6 (userinfo : Option Bytes) (inner : Bytes) (port : O
 /-! ### `canonUri` -/
 
 theorem canonUri_some (u : Uri) (raw : Bytes) (h : u.authority = some raw) :
-    canonUri u = { scheme := some canonScheme, authority := some (canonAuthority raw), path := u.path,
-                   query := none, pq := some u.path } := by
+    canonUri u = { scheme := some canonScheme, authority := some (canonAuthority raw), path := builtPath u.path,
+                   query := none, pq := some (builtPath u.path) } := by
   simp only [canonUri, h]
 
 theorem canonUri_none (u : Uri) (h : u.authority = none) : canonUri u = u := by
@@ -628,7 +628,7 @@ theorem renderUri_canonUri (u : Uri) (raw : Bytes) (h : u.authority = some raw) 
       N.ipp ++ ([cColon, cSlash, cSlash] ++ (hostOf raw ++
         ((match portOf raw with
           | some p => cColon :: natToDec p
-          | none => []) ++ u.path))) := by
+          | none => []) ++ builtPath u.path))) := by
   rw [canonUri_some u raw h]
   simp only [renderUri, canonAuthority, canonScheme_eq, Option.getD_some]
   cases portOf raw <;> simp
@@ -651,8 +651,11 @@ theorem canonUri_idem (u : Uri)
   cases ha : u.authority with
   | none => rw [canonUri_none u ha, canonUri_none u ha]
   | some raw =>
+    have hbp : builtPath (builtPath u.path) = builtPath u.path := by
+      unfold builtPath; split <;> simp_all
     rw [canonUri_some u raw ha, canonUri_some _ (canonAuthority raw) rfl,
       canonAuthority_idem raw (hb raw ha)]
+    simp only [hbp]
 
 theorem newRequest_printer_uri (ver : UInt16) (op : Operation) (u : Uri) :
     ∃ g, (newRequest ver op (some u)).groups = [g] ∧
